@@ -240,9 +240,28 @@ def void_layout_hits(impl_lines, ecap):
     return hits
 
 
-def run_variant(ctx, var, cases, tag):
+def run_variant(ctx, var, cases, tag, nproc=8):
+    """model once, implementation in `nproc` concurrent processes (a scheduled run is mostly waiting for baton
+    hand-overs, so wall time is far above CPU time)"""
+    import subprocess
     v = VARIANTS[var]
-    rc1, ml, rc2, il, raw = conc_check.run_both(ctx, v["model"], v["impl"], cases, tag=tag, timeout=900)
+    cf = os.path.join(ctx.work, tag + ".txt")
+    conc_check.write_cases(cf, cases)
+    rc1, out1 = vcheck.sh("%s 20000 < %s" % (v["model"], cf), timeout=900)
+    ml = conc_check.parse_logs(out1)
+    chunks = [cases[k::nproc] for k in range(nproc)] if len(cases) >= 4 * nproc else [cases]
+    procs = []
+    for k, ch in enumerate(chunks):
+        f = os.path.join(ctx.work, "%s.part%d.txt" % (tag, k))
+        conc_check.write_cases(f, ch)
+        procs.append(subprocess.Popen([v["impl"], f], stdout=subprocess.PIPE, stderr=subprocess.STDOUT, text=True, errors="replace"))
+    il = {}
+    for p in procs:
+        try:
+            out, _ = p.communicate(timeout=900)
+        except subprocess.TimeoutExpired:
+            p.kill(); out, _ = p.communicate()
+        il.update(conc_check.parse_logs(out))
     return ml, il
 
 
@@ -330,7 +349,7 @@ def run(ctx):
     for var in ("ring", "ringv"):
         st = stats[var]
         # 2. generated programs x schedules
-        n = (6000 if ctx.thorough() else 1500)
+        n = (6000 if ctx.thorough() else 1000)
         cases = corpus[var] + [gens[var](ctx.rng, "g%d" % i) for i in range(n)]
         samples[var] = cases[len(corpus[var])]
         ml, il = run_variant(ctx, var, cases, var + "_gen")
@@ -338,8 +357,8 @@ def run(ctx):
         # 3. all interleavings of short programs
         templates = DFS_RING if var == "ring" else DFS_RINGV
         if not ctx.thorough():
-            templates = templates[:5]
-        limit = 12000 if ctx.thorough() else 1500
+            templates = templates[:4]
+        limit = 12000 if ctx.thorough() else 1000
         dcases = []
         for base in mk_dfs_cases(templates, ctx.thorough()):
             scheds, trunc = enumerate_interleavings(ctx, VARIANTS[var]["model"], base, var, limit)
@@ -369,10 +388,11 @@ def run(ctx):
     if not res.ok:
         ctx.violation("Coq obligations of C12 do not check: %s" % (res.failed[:2],), {"theorem": [f[2] for f in res.failed], "errors": res.failed[:3]}, no_input=True)
 
-    # 5. recorded defect candidate of the void variant (liveness, see Properties_C12.v ringv_back_fails_on_empty_ring)
+    # 5. known defect of the void variant (liveness; Properties_C12.v C12_ringv_push_fails_on_empty_refuted): back(size)
+    #    fails although the ring holds no record.  Listed in known_findings.json -> KNOWN-FINDING, otherwise VIOLATION.
     ef = stats["ringv"]["empty_fail_case"]
-    if ef is not None and ctx.known_match(EMPTY_FAIL_SIG) is not None:
-        ctx.violation("WeakRingBuffer<void>::back(size) fails on an empty ring", ef, signature=EMPTY_FAIL_SIG)
+    if ef is not None:
+        ctx.violation("WeakRingBuffer<void>::back(size) fails on an empty ring (free space >= real_size but not contiguous at the positions the algorithm uses)", ef, signature=EMPTY_FAIL_SIG)
 
     def top(d, k=40):
         return dict(sorted(d.items(), key=lambda kv: -kv[1])[:k])
